@@ -285,6 +285,68 @@ class Ctx:
             self.handle_violations(res.get("violations", []))
         return res
 
+    # ------------------------------------------------------- trace direction
+    def validate_trace(self, module, path, invariants, timeout=1200):
+        """Validate an ndjson trace of independent events with a Trace_* module whose state is the
+        line number l and whose INVARIANTs are the relations.  Returns None or (invariant, line)."""
+        c = 'INIT Init\nNEXT Next\nCONSTANT TraceFile = "%s"\n' % path + "".join("INVARIANT %s\n" % i for i in invariants)
+        r = self.tlc(module, c, workers=1, allow_violation=True, timeout=timeout, heap="8g")
+        if r.ok:
+            return None
+        txt = "\n".join(r.lines)
+        inv = re.findall(r"Invariant (\w+) is violated", txt)
+        ls = re.findall(r"^(?:/\\ )?l = (\d+)", txt, re.M)
+        if not inv or not ls:
+            raise Infra("trace validation of %s failed unexpectedly:\n%s" % (module, "\n".join(r.lines[-20:])))
+        return inv[0], int(ls[-1])
+
+    def trace_direction(self, recorder, module, invariants, n, key_prefix, chunk=40000, max_findings=6):
+        """Direction B: record events from the real code on seeded adversarial inputs, validate every
+        event against the TLA+ trace spec, confirm each rejected event by re-recording it alone in a
+        fresh process."""
+        total = 0
+        part = 0
+        found = {}
+        while total < n and len(found) < max_findings:
+            part += 1
+            m = min(chunk, n - total)
+            path = os.path.join(self.scratch, "%s-trace-%d.ndjson" % (recorder, part))
+            p = self.run_harness(["record", recorder, "--seed", str(self.seed * 1000 + part), "--n", str(m), "--out", path], timeout=1800)
+            if p.returncode != 0:
+                raise Infra("record %s failed: %s" % (recorder, (p.stderr or "")[-2000:]))
+            total += m
+            lines = open(path).read().splitlines()
+            self.evaluations += len(lines)
+            self.traces += len(lines)
+            self.counters["%s_trace_events" % recorder] = self.counters.get("%s_trace_events" % recorder, 0) + len(lines)
+            start = 0
+            while start < len(lines) and len(found) < max_findings:
+                cur = path
+                if start:
+                    cur = path + ".rest"
+                    with open(cur, "w") as f:
+                        f.write("\n".join(lines[start:]) + "\n")
+                bad = self.validate_trace(module, cur, invariants)
+                if not bad:
+                    break
+                inv, pos = bad
+                ev = lines[start + pos - 1]
+                single = os.path.join(self.scratch, "%s-single.ndjson" % recorder)
+                self.run_harness(["record", recorder, "--from", cur, "--line", str(pos), "--out", single])
+                again = self.validate_trace(module, single, invariants)
+                if not again:
+                    raise Infra("rejected trace event not reproduced in a fresh process: " + ev[:500])
+                key = "%s/%s" % (key_prefix, again[0])
+                found.setdefault(key, ev)
+                start += pos  # continue after the rejected line
+        known = load_known(self.prop)
+        for key, ev in found.items():
+            if key in known:
+                self.known_hits.append((key, known[key]))
+            else:
+                self.violations.append(Violation(key, "recorded event violates %s: %s" % (key.split("/")[-1], ev[:700]),
+                                                 {"op": "trace", "recorder": recorder, "event": json.loads(ev)}))
+
     # ------------------------------------------------------ violation handling
     def handle_violations(self, viols, limit=25):
         """viols: list of {key, detail, case}.  De-duplicate by key, confirm each in a
